@@ -303,6 +303,7 @@ pub struct Knobs {
     pub bus: Vec<[u8; 5]>,
     pub avoid_overlap: bool,
     pub odd_targets: bool,
+    pub odd_ea: bool,
 }
 
 pub fn pcs_default() -> Vec<u32> {
@@ -360,6 +361,9 @@ pub fn gen_generic(f: &Form, i: usize, k: &Knobs, rng: &mut Rng) -> Case {
             }
         }
         ea = mem_addr_for(d, sz.max(1), k, rng);
+        if k.odd_ea && sz > 1 && rng.chance(1, 3) {
+            ea |= 1; // word / long operands at odd addresses (C09: still the consecutive bytes)
+        }
         b.place_mem(d, sz.max(1), ea, upper, rng);
     }
     let j = i % 61; // value index: boundary values first, then random
